@@ -4,7 +4,7 @@
      JaccardIsMergeWalk : on the property's domain ("two full sketches of equal size") the merge walk
                           of minhash.intersect over the two descending views returns
                           |Bottom_n(A u B) n A n B| and union n
-     DistanceLaws       : the resulting fixed-point distance is symmetric, within [0, 10^8], 0 for A = B,
+     DistanceTable       : the resulting fixed-point distance is symmetric, within [0, 10^8], 0 for A = B,
                           10^8 when nothing is shared
    JaccardAnySize is the same claim without the fullness guard; TLC refutes it (MC_MashJaccard_anysize.cfg:
    the code's union = min(k, m + len(a)-i + len(b)-j) is not the size of anything when no sketch is full). *)
@@ -27,7 +27,7 @@ JaccardIsMergeWalk ==
   (ph = 1 /\ Full(A, n) /\ Full(B, n)) =>
       IIntersect(VA, VB, n) = <<PJaccardNum(A, B, n), n>>
 
-DistanceLaws ==
+DistanceTable ==
   (ph = 1 /\ Full(A, n) /\ Full(B, n)) =>
       \A k \in Ks :
          /\ Dist(VA, VB, k) = Dist(VB, VA, k)
@@ -42,6 +42,14 @@ FromJaccardMonotone ==
   (ph = 1 /\ A = {} /\ B = {} /\ n = 1) =>
     \A k \in Ks : \A m1, m2 \in 1..TableMax : \A i1 \in 0..m1, i2 \in 0..m2 :
         (i1 * m2 <= i2 * m1) => DistFP(i1, m1, k) >= DistFP(i2, m2, k)
+
+\* the bracket used off the grid is consistent with the table: every grid value lies in its own bracket
+BracketSound ==
+  (ph = 1 /\ A = {} /\ B = {} /\ n = 1) =>
+    /\ \A k \in Ks : \A m \in 1..TableMax : \A i \in 0..m : InBracket(DistFP(i, m, k), i, m, k)
+    /\ \A k \in Ks : \A p \in 1..PMax : InBracket(DistFPP(p, k), 1, 2^p, k) /\ InBracket(DistFPP(p, k), 3, 3 * 2^p, k)
+    /\ \A p \in 1..5 : LnP[p] = LnT[2^p][1]                                  \* the two tables agree where they overlap
+    /\ \A p \in 1..(PMax - 1) : LnP[p] < LnP[p + 1] /\ 2 * LnP[p + 1] + 64 < 2147483647
 
 \* Variants of the claim outside the property's domain (which part of the guard is needed?).
 \* JaccardAnySize (non-empty sets, no fullness guard) is refuted by TLC for n >= 5, e.g. A = B = {1}, n = 6:
